@@ -54,7 +54,8 @@ def install(E):
     E.fp_fresh = fp_fresh
 
     def fp_ite(s, c, a, b):
-        bits = a.bits if isinstance(a, SF) else b.bits
+        bits = a.bits if isinstance(a, SF) else (b.bits if isinstance(b, SF) else 64)
+        if not isinstance(a, SF) and not isinstance(b, SF) and mode(s) == 'havoc': return SF(None, 64)
         a = lift(s, a, bits); b = lift(s, b, bits)
         m = mode(s)
         if m == 'havoc': return SF(None, bits, taint=tainted(a, b))
